@@ -120,17 +120,17 @@ def integrateDev (off : Nat) (d : Dev) (r : Report) : Option (Dev Ã— Bool) :=
     some ({ d with reports := d.reports.set (r.ts - off) s2 }, true)
 
 /-- `integrateReport` on the whole state (memory, recent list, report file). -/
-def integrate (cfg : Cfg) (s : State) (r : Report) : Option State :=
+def integrate (cfg : Cfg) (s : State) (r : Report) : Option (State Ã— Bool) :=
   match s.devices.get r.id with
   | none => none            -- nil array dereference; callers check the id first
   | some d =>
     match integrateDev s.off d r with
     | none => none
-    | some (_, false) => some s
+    | some (_, false) => some (s, false)
     | some (d', true) =>
-      some { s with devices := s.devices.set r.id d',
-                    recentR := pushRecent cfg.maxRecent s.recentR r,
-                    disk := { s.disk with reports := s.disk.reports ++ [r] } }
+      some ({ s with devices := s.devices.set r.id d',
+                     recentR := pushRecent cfg.maxRecent s.recentR r,
+                     disk := { s.disk with reports := s.disk.reports ++ [r] } }, true)
 
 /-- `parseReport`: exactly 80 bytes, known id, signature by that device's key. -/
 def parseReport (V : Verify) (s : State) (b : Bytes) : Option Report :=
@@ -152,7 +152,7 @@ def dgram (cfg : Cfg) (V : Verify) (s : State) (now : Nat) (d : Bytes) : State Ã
     if r.p = 0 âˆ¨ r.p = 1 then (s, .dropped) else
     match integrate cfg s r with
     | none => (s, .panic)
-    | some s' => (s', if s' = s then .dropped else .stored)
+    | some (s', recorded) => (s', if recorded then .stored else .dropped)
 
 /-! ### Registration and authorization -/
 
@@ -302,7 +302,7 @@ def replayReports (cfg : Cfg) (V : Verify) : State â†’ List Report â†’ Option St
       if !V d.auth.key (Report.signingBytes r) r.sig then none else
       match integrate cfg s r with
       | none => none
-      | some s' => replayReports cfg V s' rs
+      | some (s', _) => replayReports cfg V s' rs
 
 /-- `NewGCAServer` on a directory: `fresh` is the key pair a first start would
 generate, `tempKey` the installed temporary key. `none` = the start fails. -/
